@@ -38,7 +38,7 @@ ANCHORS = [
     ("doctrans/emitter_utils.py", "interpolate_defaults"),
 ]
 
-PHRASES = ("Defaults to ", "defaults to ", "Default value is ", "Default: ")
+PHRASES = ("Defaults to ", "defaults to ", "Default value is ", "Default: ", "defaults to\n", "Defaults to\n")
 
 
 def _unq(v):
@@ -204,7 +204,7 @@ def run(ctx):
                 dc = {1.0: "float_one", 0.0: "float_zero", 2.5: "float_pos", -1.0: "float_neg"}[value] if isinstance(value, float) else ("bool_true" if value else "bool_false")
             if value is IRGen.MISSING:
                 continue
-            how = "set_default_doc" if (i % 3 == 0 and prose) else PHRASES[(i // 3) % 4]
+            how = "set_default_doc" if (i % 3 == 0 and prose) else PHRASES[(i // 3) % 6]
             remove = bool((i // 2) % 2)
             ctx.case((tc, dc, doc_class, how, remove, repr(value)), nontrivial=True,
                      sample={"prose": prose, "typ": typ, "value": repr(value), "render": how, "removal": remove},
